@@ -298,15 +298,15 @@ impl MultiReceiverListener for Listener {
 // --------------------------------------------------------------------------------------------
 // watchdog
 
-static DEADLINE_MS: AtomicU64 = AtomicU64::new(0);
-static CUR_BEH: AtomicI64 = AtomicI64::new(-1);
-static CUR_LINE: AtomicI64 = AtomicI64::new(-1);
+pub(crate) static DEADLINE_MS: AtomicU64 = AtomicU64::new(0);
+pub(crate) static CUR_BEH: AtomicI64 = AtomicI64::new(-1);
+pub(crate) static CUR_LINE: AtomicI64 = AtomicI64::new(-1);
 
 fn now_ms() -> u64 {
     SystemTime::now().duration_since(SystemTime::UNIX_EPOCH).unwrap().as_millis() as u64
 }
 
-fn start_watchdog(side: String, limit_ms: u64) {
+pub(crate) fn start_watchdog(side: String, limit_ms: u64) {
     std::thread::spawn(move || loop {
         std::thread::sleep(Duration::from_millis(50));
         let d = DEADLINE_MS.load(Ordering::Relaxed);
@@ -317,7 +317,7 @@ fn start_watchdog(side: String, limit_ms: u64) {
     });
 }
 
-fn guarded<T>(limit_ms: u64, f: impl FnOnce() -> T) -> T {
+pub(crate) fn guarded<T>(limit_ms: u64, f: impl FnOnce() -> T) -> T {
     DEADLINE_MS.store(now_ms() + limit_ms, Ordering::Relaxed);
     let r = f();
     DEADLINE_MS.store(0, Ordering::Relaxed);
@@ -444,6 +444,7 @@ pub fn run_rx_behaviour(beh: &Value, sessions: &Vec<Session>, out: &mut Out, lim
                           "write_fail":wv.get("write_fail").cloned().unwrap_or(json!([]))},
                      "heap0":heap0}));
 
+    let beh_start = std::time::Instant::now();
     let mut delay_us: i64 = 0;
     let mut skew_us: i64 = 0;
     let mut fixed_now: Option<i64> = None; // absolute ticks
@@ -480,7 +481,8 @@ pub fn run_rx_behaviour(beh: &Value, sessions: &Vec<Session>, out: &mut Out, lim
             Ok(Err(e)) => ("err", format!("{:?}", e)),
             Ok(Ok(())) => ("ok", String::new()),
         };
-        let mut ev = json!({"ev":"push","ep":ep,"ts":rel_s(now, st.base_s),"res":rs,"cb":cb,"us":us,"peak":peak,"size":bytes.len()});
+        let mut ev = json!({"ev":"push","ep":ep,"ts":rel_s(now, st.base_s),"res":rs,"cb":cb,"us":us,"peak":peak,"size":bytes.len(),
+                            "ms":beh_start.elapsed().as_millis() as u64});
         for (k, v) in tag.as_object().unwrap() {
             ev[k] = v.clone();
         }
@@ -537,7 +539,7 @@ pub fn run_rx_behaviour(beh: &Value, sessions: &Vec<Session>, out: &mut Out, lim
                     }
                 }
             }
-            "garbage" | "fuzzhdr" | "mutseq" | "xmlfdt" => {
+            "garbage" | "fuzzhdr" | "mutseq" | "xmlfdt" | "rawset" => {
                 if let Some(r) = rx.as_mut() {
                     let endpoint = make_ep(ep);
                     let mut cases: Vec<Vec<u8>> = Vec::new();
@@ -563,6 +565,12 @@ pub fn run_rx_behaviour(beh: &Value, sessions: &Vec<Session>, out: &mut Out, lim
                                 // half of the samples start like a plausible LCT header
                                 if x & 1 == 0 && v.len() >= 4 { v[0] = 0x10; v[2] = (v[2] % 12) as u8; }
                                 cases.push(v);
+                            }
+                        }
+                        "rawset" => {
+                            // datagrams given byte by byte (built by the wire-format specification)
+                            for c in a[1].as_array().unwrap() {
+                                cases.push(c.as_array().unwrap().iter().map(|b| b.as_u64().unwrap() as u8).collect());
                             }
                         }
                         "fuzzhdr" => {
@@ -698,7 +706,7 @@ pub fn run_rx_behaviour(beh: &Value, sessions: &Vec<Session>, out: &mut Out, lim
                         }
                     }
                     let cb: Vec<Value> = st.log.borrow_mut().drain(..).collect();
-                    let mut ev = json!({"ev":"batch","kind":name,"arg":a.get(1).cloned().unwrap_or(json!(0)),"count":total,"ok":nok,"err":nerr,"panic":npanic,
+                    let mut ev = json!({"ev":"batch","kind":name,"arg":if name == "rawset" { json!(total) } else { a.get(1).cloned().unwrap_or(json!(0)) },"count":total,"ok":nok,"err":nerr,"panic":npanic,
                         "maxus":maxus,"peak":maxpeak,"first_bad":first_bad,"ncb":cb.len(),"cb":cb,"ep":ep,"sid":sid});
                     if !dead {
                         ev["st"] = snapshot(r, &st);
@@ -718,6 +726,7 @@ pub fn run_rx_behaviour(beh: &Value, sessions: &Vec<Session>, out: &mut Out, lim
                     // optional argument: receiver now in ticks of the current session
                     let now = if a.len() > 1 { time_of(a[1].as_i64().unwrap(), s.tick_us, delay_us, skew_us) } else { last_now };
                     last_now = now;
+                    let ms0 = beh_start.elapsed().as_millis() as u64;
                     let res = guarded(limit_ms, || catch(|| r.cleanup(now)));
                     let cb: Vec<Value> = st.log.borrow_mut().drain(..).collect();
                     match res {
@@ -725,7 +734,7 @@ pub fn run_rx_behaviour(beh: &Value, sessions: &Vec<Session>, out: &mut Out, lim
                             out.emit(&json!({"ev":"cleanup","ts":rel_s(now, st.base_s),"res":"panic","m":m,"cb":cb}));
                             dead = true;
                         }
-                        Ok(()) => out.emit(&json!({"ev":"cleanup","ts":rel_s(now, st.base_s),"res":"ok","cb":cb,"st":snapshot(r, &st)})),
+                        Ok(()) => out.emit(&json!({"ev":"cleanup","ts":rel_s(now, st.base_s),"res":"ok","cb":cb,"st":snapshot(r, &st),"ms":ms0})),
                     }
                 }
             }
